@@ -601,6 +601,9 @@ func (s *Scope) evalCall(e ECall) Term {
 			return T("("+name+" "+a.S+")", SBool)
 		case "iserr":
 			return s.Eval(e.Args[0])
+		case "runecount": // number of runes of a string (uninterpreted; 0 <= runecount(s) <= len(s)); len([]rune(s)) in code
+			a := s.Eval(e.Args[0])
+			return x.runeCount(a, nil)
 		case "sameseq": // extensional equality
 			as := args()
 			return x.seqEq(as[0], as[1])
@@ -821,6 +824,23 @@ func (s *Scope) evalMethodCall(f ESel, argsE []Expr) Term {
 		unsupported("method call on value without Go type in contract")
 	}
 	pkgName := named.Obj().Pkg().Name()
+	// strings.Builder / bytes.Buffer are modelled as their byte sequence
+	if pp := named.Obj().Pkg().Path(); (pp == "strings" && named.Obj().Name() == "Builder") || (pp == "bytes" && named.Obj().Name() == "Buffer") {
+		if recv.Sort == x.W.SeqSort(SInt) {
+			switch f.Name {
+			case "String":
+				r := recv
+				r.GoT = types.Typ[types.String]
+				return r
+			case "Bytes":
+				r := recv
+				r.GoT = types.NewSlice(types.Typ[types.Uint8])
+				return r
+			case "Len":
+				return x.W.SeqLen(recv)
+			}
+		}
+	}
 	// m$k selects the k-th result of a pure method
 	resIdx := 0
 	mname := f.Name
